@@ -151,7 +151,7 @@ def _arr_code(arr):
         if len(f) == 4:
             return [0, -1, 1, int(f[2])]
         return ["?arr", name, 0, 0]
-    return [1, int(f[-1]), 0, 0]
+    return [1, name, 0, 0]      # renumbered by order of definition in the path (real_pathrun)
 
 
 def real_pathrun(case, lib):
@@ -252,11 +252,21 @@ def real_pathrun(case, lib):
             else:
                 results.append(["?", str(v)[:80]])
     path, other = [], 0
+    order = {}      # array variable name -> its rank among the definitions in the path (the names' own numbers are cosmetic)
+    for c in ex.path.conditions:
+        d = split_array_def(c)
+        if d is not None:
+            order.setdefault(d[0].decl().name(), len(order) + 1)
+
+    def renum(code):
+        return [order.get(x, -1) if isinstance(x, str) and x.startswith("storage_") else x for x in code]
+
+    results = [renum(rr) for rr in results]
     for c in ex.path.conditions:
         d = split_array_def(c)
         if d is not None:
             var, base, k, v = d
-            path.append([10, _arr_code(var)[1]] + _arr_code(base) + [key_id(k), v.as_long() if Z.is_bv_value(v) else -1])
+            path.append(renum([10, _arr_code(var)[1]] + _arr_code(base) + [key_id(k), v.as_long() if Z.is_bv_value(v) else -1]))
             continue
         ea = split_empty_axiom(c)
         if ea is not None:
@@ -266,24 +276,32 @@ def real_pathrun(case, lib):
     # ---- spec leg (non-symbolic accounts): under valuations of the symbolic words AND an
     # interpretation of the initial arrays that is only as constrained as the path makes it,
     # every load must return what the EVM's flat zero-initialised array returns
+    # symbolic accounts: the initial contents are unconstrained, so the path must hold, and the
+    # loads must return the initial value of never-written slots, for an arbitrary initial state
     spec_fails = []
-    if not case["sym"]:
-        conds = list(ex.path.conditions)
+    conds = list(ex.path.conditions)
+    if True:
         for env in SPEC_ENVS:
-            for default in (0, SENTINELS[0]):
+            for default in ((SENTINELS[0],) if case["sym"] else (0, SENTINELS[0])):
                 plain = zeval.Evaluator(lib.z3_env(env))
                 ev = zeval.Evaluator(lib.z3_env(env))
                 if default:
                     arrays = {name: {} for name in initial_arrays(conds + loaded)}
                     for c in conds:
                         ax = split_empty_axiom(c)
-                        if ax is not None:
+                        if ax is not None and not case["sym"]:
                             arrays.setdefault(ax[0].decl().name(), {})[plain.ev(ax[1])] = 0
                     for name, d in arrays.items():
                         ev.env[name] = (d, default)
+                    for name, t in zeval.free_consts(conds + [v for v in loaded if isinstance(v, Z.ExprRef)]).items():
+                        if Z.is_bv(t) and EMPTY_RE.match(name):
+                            ev.env[name] = default          # initial value of a scalar chunk (symbolic account)
                 try:
                     rest = ev.define_arrays(conds)
                     if not all(ev.holds(c) for c in rest):
+                        if case["sym"]:
+                            bad = next(c for c in rest if not ev.holds(c))
+                            spec_fails.append({"env": env, "error": f"the path of a SYMBOLIC account constrains its initial storage: condition {str(bad)[:160]} fails when every initial word is {hex(default)}"})
                         continue
                     got = [ev.ev(v) for v in loaded]
                 except zeval.Unknown as e:
@@ -295,7 +313,7 @@ def real_pathrun(case, lib):
                     if op[0] == "store":
                         flat[a] = op[2]
                     else:
-                        expect.append(flat.get(a, 0))
+                        expect.append(flat.get(a, default if case["sym"] else 0))
                 if got != expect:
                     spec_fails.append({"env": env, "halmos": got, "flat": expect,
                                        "initial_arrays": "all zero" if not default else f"{hex(default)} wherever the path has no emptiness axiom"})
